@@ -5,12 +5,13 @@ open SqliteConn Drv
 /-! Line protocol for the connection-lifecycle model (both modes are run side by side on the
 table generated from the current source; content = a version counter).
   `reset`                                   → `reset`
-  `table`                                   → `ok=<0|1> noleak=<0|1> oneconn=<0|1> secs=<n> ops=<n> unknowns=<n> locks=<0|1>`
+  `table`                                   → `ok=<0|1> noleak=<0|1> oneconn=<0|1> secs=<n> ops=<n> unknowns=<n> locks=<0|1> noscratch=<0|1>`
   `lk|<task>|<obj>|<acq or rel>`            → `single=<lres> percall=<lres>`  (lock request / release by a task on a state store object;
                                                `<lres>` is `got`, `wait`, `next:<task or ->`, `notheld` or `nostore`)
   `final`                                   → `same=<0|1> pend=<0|1> open=<0|1>`  (committed content equal; shared connection has uncommitted changes / is open)
   `new|<viaCreate 0|1>`                     → `store=<i> given=<0|1>`
-  `sec|<obj or ->|<section>|<ok>|<began>|<wrote>` → `single=<res>/<onShared> percall=<res> open=<0|1> intx=<0|1> pend=<0|1> same=<0|1> s+<opened>/<closed> p+<opened>/<closed>`
+  `sec|<obj or ->|<section>|<ok>|<began>|<wrote>` → `single=<res>/<onShared> percall=<res> open=<0|1> intx=<0|1> pend=<0|1> same=<0|1> s+<opened>/<closed> p+<opened>/<closed> res=<0|1>`
+(`res`: the section leaves connection-scoped state — TEMP objects, attached databases — on the shared connection)
 `<res>` is `ok`, `err`, `closed`, `nostore` or `nosec`; `<ok>`/`<began>`/`<wrote>` are the oracle's answers for this
 section (did its statements end normally; was a data-changing statement attempted; did one succeed). -/
 namespace Drv.SqliteConn
@@ -42,7 +43,7 @@ def step (st : St2) (line : String) : St2 × String :=
   match line.splitOn "|" with
   | ["reset"] => ({}, "reset")
   | ["table"] =>
-    (st, s!"ok={b01 (tableOk table)} noleak={b01 (tableNoLeak table)} oneconn={b01 (instanceProvider table)} secs={table.secs.length} ops={table.ops.length} unknowns={table.unknowns} locks={b01 table.lockPerStore}")
+    (st, s!"ok={b01 (tableOk table)} noleak={b01 (tableNoLeak table)} oneconn={b01 (instanceProvider table)} secs={table.secs.length} ops={table.ops.length} unknowns={table.unknowns} locks={b01 table.lockPerStore} noscratch={b01 (tableNoScratch table)}")
   | ["final"] =>
     (st, s!"same={b01 (st.s.committed == st.p.committed)} pend={b01 st.s.pending.isSome} open={b01 st.s.sharedOpen}")
   | ["new", v] =>
@@ -67,7 +68,9 @@ def step (st : St2) (line : String) : St2 × String :=
         | some sec => match onShared table .single sec obj st.s.stores with
           | none => "-"
           | some b => b01 b
-      let out := s!"single={showRes r1.2}/{on} percall={showRes r2.2} open={b01 r1.1.sharedOpen} intx={b01 r1.1.inTx} pend={b01 r1.1.pending.isSome} same={b01 (r1.1.committed == r2.1.committed)} s+{r1.1.opened - st.s.opened}/{r1.1.closed - st.s.closed} p+{r2.1.opened - st.p.opened}/{r2.1.closed - st.p.closed}"
+      -- connection-scoped state as a counter of what was left behind: does this section leave something on the shared connection?
+      let kr := scratchStep table .single (fun _ _ (k : Nat) => (k + 1, k)) 0 st.s.stores obj idx 0 0
+      let out := s!"single={showRes r1.2}/{on} percall={showRes r2.2} open={b01 r1.1.sharedOpen} intx={b01 r1.1.inTx} pend={b01 r1.1.pending.isSome} same={b01 (r1.1.committed == r2.1.committed)} s+{r1.1.opened - st.s.opened}/{r1.1.closed - st.s.closed} p+{r2.1.opened - st.p.opened}/{r2.1.closed - st.p.closed} res={b01 (kr.1 != 0)}"
       ({ st with s := r1.1, p := r2.1 }, out)
     | _, _, _, _ => (st, "bad-op")
   | ["lk", ts, os, kind] =>
